@@ -35,6 +35,8 @@ type PVsys struct {
 	SGroups []PGroup
 	// device only: extra XML inside the vsys that the tool does not model
 	Opaque string
+	// device only: the vsys has no <display-name> at all
+	NoDisplay bool
 }
 
 type PConf struct {
@@ -472,7 +474,9 @@ func (v *PVsys) XML(device bool, spell int) string {
 	var b strings.Builder
 	fmt.Fprintf(&b, `<entry name="%s">`, v.Name)
 	if device {
-		b.WriteString("<display-name>" + v.Display + "</display-name>")
+		if !v.NoDisplay {
+			b.WriteString("<display-name>" + v.Display + "</display-name>")
+		}
 		b.WriteString(v.Opaque)
 	}
 	b.WriteString("<rulebase><security><rules>")
